@@ -627,7 +627,9 @@ func main() {
 		}
 		// fresh user-level state: drop every root; a realm pair that cannot be reset any more
 		// (left inconsistent by an earlier behaviour) is replaced by a fresh pair
-		if ok, _ := w.call(in.heap, "Reset"); !ok {
+		// ... and so is a pair that has served 60 behaviours: unreachable cycles stay in the store for
+		// ever, and every dumped graph contains all of them
+		if ok, _ := w.call(in.heap, "Reset"); !ok || (bi > 0 && bi%60 == 0) {
 			in = w.newInstance()
 			sum["instances"]++
 		}
